@@ -3,7 +3,7 @@
 From Verif Require Import Base.Tactics Base.ZList Base.Val.
 From Verif Require Import Base.Str.
 From Verif Require Import Model.BufReaderModel Model.RangeModel Model.IsoTimeModel Model.TimingModel Model.SegModel.
-From Verif Require Import Base.Bits Model.CrcModel Model.EventsModel Model.Scte35Model Model.MpsModel.
+From Verif Require Import Base.Bits Model.CrcModel Model.EventsModel Model.Scte35Model Model.MpsModel Model.AuthModel.
 
 (* ---- C20 ---- request: (file off bs maxb (size?) mode ops) *)
 Definition c20_op (v : val) : op :=
@@ -218,8 +218,27 @@ Definition c12_run (v : val) : val :=
     end
   else verr 996.
 
+(* ---- C15 ---- request: (mode ...)   mode 0: CSRF run: (mactable calls) with
+   mactable = ((message mac) ...), calls = ((cookie?) service token) ...  -> accepted flags *)
+Fixpoint c15_lookup (tbl : list (list Z * list Z)) (m : list Z) : list Z :=
+  match tbl with
+  | [] => []
+  | (k, v) :: r => if list_eq_dec Z.eq_dec k m then v else c15_lookup r m
+  end.
+Fixpoint c15_flags (mac : list Z -> list Z) (used : list (list Z)) (calls : list (option (list Z) * list Z * list Z)) : list val :=
+  match calls with
+  | [] => []
+  | (c, s, t) :: rest => let '(used', ok) := check mac used c s t in vbool ok :: c15_flags mac used' rest
+  end.
+Definition c15_run (v : val) : val :=
+  let tbl := map (fun e => (vints (vnth 0 e), vints (vnth 1 e))) (vlist (vnth 1 v)) in
+  let calls := map (fun e => (match vnth 0 e with VL [VL c] => Some (map vint c) | _ => None end,
+                              vints (vnth 1 e), vints (vnth 2 e))) (vlist (vnth 2 v)) in
+  VL (c15_flags (c15_lookup tbl) [] calls).
+
 Definition dispatch (comp : Z) (v : val) : val :=
   if comp =? 20 then c20_run v
+  else if comp =? 15 then c15_run v
   else if comp =? 12 then c12_run v
   else if comp =? 14 then c14_run v
   else if comp =? 2 then seg_run v
